@@ -46,6 +46,8 @@ POSITIONS = [
     ('call-in-binary-in-list', 'let f = func (x) => x; let r = [1 + f({I}.a)];', 1), ('copy-in-func-in-map', 'let t = {z = 0}; let r = map(func (x) => t{y = {I}.a}, [1]);', 1),
     ('double', 'let r = {I}.a + {I}.b;', 2), ('std-untouched', 'let r = import "std/lists.ucg";', 0),
 ]
+# names that merely *start like* the standard library prefix are ordinary relative paths
+STD_LOOKALIKES = ['stdvals.ucg', 'std_env/x.ucg', 'stdlib/x.ucg', 'std.ucg', './std/x.ucg', 'sub/std/x.ucg']
 
 
 def strings_in(v, acc, depth=0):
@@ -70,6 +72,21 @@ def harness_positions(ctx, case):
     prog = ctx.prog
     out = {'reached': True, 'asserts': 1, 'violations': []}
     kind = case['kind']
+    if case['name'].startswith('std-lookalike'):
+        rel = case['rel']
+        text = 'let r = import "%s";' % rel
+        r = ucgrun.parse_program(ctx, text)
+        ops = ucgrun.translate(ctx, r.fields[0], '/wd/base')
+        acc = []
+        strings_in(ops, acc)
+        hits = [s for s in acc if rel.lstrip('./') in s]
+        import posixpath
+        if not hits or any(not s.startswith('/wd/base/') for s in hits):
+            out['violations'].append({'key': 'C09:positions:import-not-rewritten:std-lookalike', 'what': 'the relative import path %r is not resolved against the importing file: compiled form contains %r' % (rel, hits),
+                                      'case': {'kind': 'cli-cwd', 'text': text, 'which': 'import', 'rel': rel}})
+        else:
+            out['sample'] = {'position': 'std-lookalike', 'path': rel, 'compiled_paths': hits}
+        return out
     rel = REL if kind == 'import' else RELI
     text = case['text'].replace('{I}', IMP if kind == 'import' else INC + '')
     if kind == 'include':
@@ -220,6 +237,10 @@ def judge_positions(fw, v):
     res = {}
     with tempfile.TemporaryDirectory(prefix='ucg-verif-c09-') as d:
         os.makedirs(os.path.join(d, 'base', 'rel'))
+        if c.get('rel'):
+            tgt = os.path.normpath(os.path.join(d, 'base', c['rel']))
+            os.makedirs(os.path.dirname(tgt), exist_ok=True)
+            open(tgt, 'w').write(XFILE)
         open(os.path.join(d, 'base', 'main.ucg'), 'w').write(c['text'])
         open(os.path.join(d, 'base', 'rel', 'x.ucg'), 'w').write(XFILE)
         open(os.path.join(d, 'base', 'rel', 'x.txt'), 'w').write('1')
@@ -263,6 +284,8 @@ def run(fw):
             if kind == 'import' and name == 'let-constraint':
                 continue        # the grammar does not accept a selector in a constraint
             pos_cases.append({'kind': kind, 'name': name, 'text': text, 'n': n})
+    for rel in STD_LOOKALIKES:
+        pos_cases.append({'kind': 'import', 'name': 'std-lookalike:' + rel, 'rel': rel, 'text': '', 'n': 1})
     fw.explore('positions', harness_positions, pos_cases, fuel=50_000_000)
     nmax = 4 if fw.tier == 'quick' else 5
     fw.explore('normalize', harness_normalize, [{'n': n} for n in range(0, nmax + 1)], fuel=5_000_000)
